@@ -1,3 +1,479 @@
 package crashlib
 
-func Main(prop string) {}
+import (
+	"bufio"
+	"encoding/json"
+	"fmt"
+	"os"
+	"os/exec"
+	"path/filepath"
+	"runtime"
+	"strings"
+	"sync"
+	"time"
+
+	"verifharness/vh"
+)
+
+const (
+	SigF6 = "crash-after-consensus-snapshot-followed-by-later-snapshot"
+	SigF7 = "crash-inside-node-accept-sequence"
+)
+
+// CaseJS is the self-contained replayable case: a workload and one crash point.
+type CaseJS struct {
+	Property string `json:"property"`
+	Workload string `json:"workload"`
+	Spec     Spec   `json:"spec"`
+	Mode     string `json:"mode"` // "after" k: stop right after the k-th mutating call returned; "before" k: right before it is forwarded
+	K        int    `json:"k"`
+}
+
+type point struct {
+	mode string
+	k    int
+}
+
+type outcome struct {
+	pt       point
+	runExit  int
+	prefix   []Call
+	rec      *Recovered
+	recExit  int
+	recErr   string
+	duration time.Duration
+}
+
+func selfExe() string {
+	p, err := os.Executable()
+	must(err)
+	return p
+}
+
+func readTrace(path string) []Call {
+	f, err := os.Open(path)
+	if err != nil {
+		return nil
+	}
+	defer f.Close()
+	var out []Call
+	sc := bufio.NewScanner(f)
+	sc.Buffer(make([]byte, 1<<20), 1<<24)
+	for sc.Scan() {
+		var c Call
+		if json.Unmarshal(sc.Bytes(), &c) == nil {
+			out = append(out, c)
+		}
+	}
+	return out
+}
+
+func runChild(args ...string) (int, string) {
+	cmd := exec.Command(selfExe(), args...)
+	var sb strings.Builder
+	cmd.Stdout = &sb
+	cmd.Stderr = &sb
+	err := cmd.Run()
+	code := 0
+	if err != nil {
+		if ee, ok := err.(*exec.ExitError); ok {
+			code = ee.ExitCode()
+		} else {
+			code = -1
+		}
+	}
+	s := sb.String()
+	if len(s) > 1500 {
+		s = s[len(s)-1500:]
+	}
+	return code, s
+}
+
+// dryRun executes the whole workload without a crash and returns its call trace.
+func dryRun(root string, specPath string) ([]Call, []string, int, string) {
+	dir := filepath.Join(root, "dry")
+	must(os.MkdirAll(dir, 0o755))
+	tr := filepath.Join(root, "dry.trace")
+	lg := filepath.Join(root, "dry.log")
+	code, out := runChild("child-run", "--dir", dir, "--spec", specPath, "--mode", "none", "--trace", tr, "--log", lg)
+	var log []string
+	if b, err := os.ReadFile(lg); err == nil {
+		json.Unmarshal(b, &log)
+	}
+	return readTrace(tr), log, code, out
+}
+
+func crashAndRecover(root, specPath string, idx int, pt point) *outcome {
+	start := time.Now()
+	dir := filepath.Join(root, fmt.Sprintf("c%d", idx))
+	must(os.MkdirAll(dir, 0o755))
+	defer os.RemoveAll(dir)
+	tr := filepath.Join(root, fmt.Sprintf("c%d.trace", idx))
+	rc := filepath.Join(root, fmt.Sprintf("c%d.rec", idx))
+	o := &outcome{pt: pt}
+	o.runExit, _ = runChild("child-run", "--dir", dir, "--spec", specPath, "--mode", pt.mode, "--k", fmt.Sprint(pt.k), "--trace", tr)
+	o.prefix = readTrace(tr)
+	o.recExit, o.recErr = runChild("child-recover", "--dir", dir, "--spec", specPath, "--out", rc)
+	if b, err := os.ReadFile(rc); err == nil {
+		var r Recovered
+		if json.Unmarshal(b, &r) == nil {
+			o.rec = &r
+		}
+	}
+	o.duration = time.Since(start)
+	return o
+}
+
+// ---- abstract form --------------------------------------------------------------
+
+func callTerm(c Call) string {
+	n := func(v int) string {
+		if v < 0 {
+			v = 0
+		}
+		return vh.NU(uint64(v))
+	}
+	switch c.Name {
+	case "CacheStoreTransaction", "CacheQueueTransaction":
+		return vh.App("CCache", n(c.Tx))
+	case "LockGhostKeys":
+		return vh.App("CLockGhost", n(c.Tx))
+	case "LockUTXOs", "LockDepositInput", "LockMintInput":
+		return vh.App("CLockIn", n(c.Tx))
+	case "WriteTransaction":
+		return vh.App("CWriteTx", n(c.Tx))
+	case "AddNodeOperation":
+		return vh.App("CNodeOp", n(c.Tx))
+	case "StartNewRound":
+		return vh.App("CStartRound", n(c.Chain), vh.NU(c.Round))
+	case "UpdateEmptyHeadRound":
+		return vh.App("CUpdateHead", n(c.Chain), vh.NU(c.Round))
+	case "WriteSnapshot":
+		txs := make([]string, len(c.Txs))
+		for i, t := range c.Txs {
+			txs[i] = n(t)
+		}
+		return vh.App("CWriteSnap", n(c.Snap), n(c.Chain), vh.NU(c.Round), vh.List(txs, "N"), vh.Bool(c.Cons), n(c.Ref))
+	case "WriteConsensusSnapshot":
+		return vh.App("CMarker", n(c.Snap))
+	}
+	return "COther"
+}
+
+func callsTerm(cs []Call) string {
+	el := make([]string, len(cs))
+	for i, c := range cs {
+		el[i] = callTerm(c)
+	}
+	return vh.List(el, "call")
+}
+
+// ---- structural predicates on (workload trace, crash point) --------------------------
+
+type region struct {
+	lastCons    *Call // last consensus-class snapshot durably finalized in the prefix
+	markerDone  bool  // its WriteConsensusSnapshot is in the prefix
+	laterSnap   bool  // another WriteSnapshot follows it in the prefix
+	f6          bool
+	f7          bool // some chain has StartNewRound(·,0) but not StartNewRound(·,1) in the prefix
+	consCount   int
+	snapCount   int
+	insideStep  bool // the cut separates two calls of one step
+	acceptChain int
+}
+
+func classify(full []Call, plen int) region {
+	var r region
+	r.acceptChain = -1
+	prefix := full[:plen]
+	zero, one := map[int]bool{}, map[int]bool{}
+	for i := range prefix {
+		c := &prefix[i]
+		switch c.Name {
+		case "WriteSnapshot":
+			r.snapCount++
+			if c.Cons {
+				r.consCount++
+				r.lastCons = c
+				r.markerDone, r.laterSnap = false, false
+			} else if r.lastCons != nil {
+				r.laterSnap = true
+			}
+		case "WriteConsensusSnapshot":
+			if r.lastCons != nil && c.Snap == r.lastCons.Snap {
+				r.markerDone = true
+			}
+		case "StartNewRound":
+			if c.Round == 0 {
+				zero[c.Chain] = true
+			}
+			if c.Round == 1 {
+				one[c.Chain] = true
+			}
+		}
+	}
+	for ch := range zero {
+		if !one[ch] {
+			r.f7 = true
+			r.acceptChain = ch
+		}
+	}
+	r.f6 = r.lastCons != nil && !r.markerDone && r.laterSnap
+	if plen > 0 && plen < len(full) {
+		r.insideStep = full[plen-1].Step == full[plen].Step
+	}
+	return r
+}
+
+// ---- one workload ------------------------------------------------------------------
+
+type Harness struct {
+	C        *vh.Ctx
+	Prop     string
+	sigCount map[string]int
+	Workers  int
+}
+
+func (h *Harness) fail(sig, what string, cs CaseJS) {
+	h.sigCount[sig]++
+	if (sig == SigF6 || sig == SigF7) && h.sigCount[sig] > 2 {
+		return // one recorded finding does not need fifty reports
+	}
+	h.C.Fail(sig, what, cs)
+}
+
+func prefixLen(pt point) int {
+	if pt.mode == "before" {
+		return pt.k - 1
+	}
+	return pt.k
+}
+
+// selectPoints chooses the crash points of a workload.
+type selector func(full []Call) []point
+
+func (h *Harness) RunWorkload(name string, spec Spec, sel selector) {
+	c := h.C
+	root, err := os.MkdirTemp("", "verif_"+strings.ToLower(h.Prop)+"_")
+	must(err)
+	defer os.RemoveAll(root)
+	specPath := filepath.Join(root, "spec.json")
+	sb, _ := json.Marshal(spec)
+	must(os.WriteFile(specPath, sb, 0o644))
+
+	full, log, code, out := dryRun(root, specPath)
+	if code != 0 || len(full) == 0 {
+		c.Note(fmt.Sprintf("workload %s: crash-free run failed (exit %d): %s", name, code, out))
+		c.Fail("workload-run-failed", fmt.Sprintf("workload %s does not complete without a crash (exit %d): %s", name, code, out),
+			CaseJS{Property: h.Prop, Workload: name, Spec: spec, Mode: "none"})
+		return
+	}
+	nsnap := 0
+	for _, cl := range full {
+		if cl.Name == "WriteSnapshot" {
+			nsnap++
+		}
+	}
+	if nsnap != len(spec.Steps) {
+		c.Note(fmt.Sprintf("workload %s: %d of %d steps finalized; log: %s", name, nsnap, len(spec.Steps), strings.Join(log, " | ")))
+	}
+	ids := map[string]int{}
+	env := NewEnv(spec.Nodes)
+	for i, hsh := range env.GenSnaps {
+		ids[hsh.String()] = i
+	}
+	for _, cl := range full {
+		if cl.Name == "WriteSnapshot" {
+			ids[cl.Hash] = cl.Snap
+		}
+	}
+
+	pts := sel(full)
+	outs := make([]*outcome, len(pts))
+	var wg sync.WaitGroup
+	sem := make(chan struct{}, h.Workers)
+	for i := range pts {
+		wg.Add(1)
+		sem <- struct{}{}
+		go func(i int) {
+			defer wg.Done()
+			defer func() { <-sem }()
+			outs[i] = crashAndRecover(root, specPath, i, pts[i])
+		}(i)
+	}
+	wg.Wait()
+
+	for _, o := range outs {
+		h.judge(name, spec, full, ids, o)
+	}
+}
+
+func (h *Harness) judge(name string, spec Spec, full []Call, ids map[string]int, o *outcome) {
+	c := h.C
+	cs := CaseJS{Property: h.Prop, Workload: name, Spec: spec, Mode: o.pt.mode, K: o.pt.k}
+	plen := prefixLen(o.pt)
+	key := fmt.Sprintf("%s|%s|%d", name, o.pt.mode, o.pt.k)
+	if plen < 0 || plen > len(full) {
+		return
+	}
+	// the stopped run must have issued exactly the prefix of the crash-free run
+	wantExit := CrashExitCode
+	if o.runExit != wantExit || len(o.prefix) != plen {
+		c.Note(fmt.Sprintf("%s: stopped run exit=%d trace=%d want %d/%d", key, o.runExit, len(o.prefix), wantExit, plen))
+		c.Fail("harness-nondeterministic-workload", "the stopped run did not reproduce the prefix of the crash-free run: "+key, cs)
+		return
+	}
+	for i := range o.prefix {
+		if o.prefix[i].Name != full[i].Name || o.prefix[i].Hash != full[i].Hash || o.prefix[i].Tx != full[i].Tx {
+			c.Fail("harness-nondeterministic-workload", fmt.Sprintf("call %d differs between runs: %s", i+1, key), cs)
+			return
+		}
+	}
+	rg := classify(full, plen)
+	restart := "crashed"
+	detail := o.recErr
+	if o.rec != nil {
+		restart = o.rec.Setup
+		detail = o.rec.Detail
+	}
+	if len(detail) > 300 {
+		detail = detail[:300]
+	}
+	where := fmt.Sprintf("workload %s stopped %s call %d/%d", name, o.pt.mode, o.pt.k, len(full))
+	if plen > 0 {
+		where += " (" + full[plen-1].Name + " was the last completed call"
+		if plen < len(full) {
+			where += ", " + full[plen].Name + " the next"
+		}
+		where += ")"
+	}
+	masked := rg.f7 || (h.Prop == "C21" && rg.f6)
+
+	switch h.Prop {
+	case "C21":
+		kind := "after-consensus-finalization"
+		if rg.lastCons == nil {
+			kind = "before-any-consensus-snapshot"
+		} else if !rg.markerDone && !rg.laterSnap {
+			kind = "marker-pending,consensus-snapshot-last"
+		} else if rg.f6 {
+			kind = "marker-pending,later-snapshot(F6-region)"
+		}
+		if rg.f7 {
+			kind = "inside-accept-window(C22-finding)"
+		}
+		obs := ""
+		switch restart {
+		case "ok":
+			id, known := ids[o.rec.Marker]
+			if !known {
+				id = 999999
+			}
+			obs = vh.Ok(vh.NU(uint64(id)))
+		case "error":
+			obs = vh.Err("N")
+		default:
+			obs = vh.Pan("N")
+		}
+		term := ""
+		if !masked {
+			term = vh.App("CRecover", vh.NU(uint64(spec.Nodes)), callsTerm(full), vh.Nat(plen), obs)
+		}
+		c.Case(kind, key, rg.lastCons != nil && restart == "ok", cs, term)
+		if rg.lastCons == nil {
+			return
+		}
+		if restart != "ok" {
+			if rg.f7 {
+				c.Count("restart-fails-inside-accept-window(not judged by C21)")
+				return
+			}
+			h.fail("restart-failed-after-consensus-finalization", where+": the node does not restart ("+restart+": "+detail+")", cs)
+			return
+		}
+		if o.rec.Marker != rg.lastCons.Hash {
+			what := fmt.Sprintf("%s: consensus snapshot %s (id %d) was durably finalized, after restart ReadLastConsensusSnapshot = %s (id %d)",
+				where, rg.lastCons.Hash[:12], rg.lastCons.Snap, o.rec.Marker[:12], ids[o.rec.Marker])
+			if rg.f6 {
+				h.fail(SigF6, what, cs)
+			} else {
+				h.fail("consensus-marker-lost", what, cs)
+			}
+		}
+	case "C22":
+		if plen > 0 && full[plen-1].Commits > 1 && o.pt.mode == "after" {
+			h.fail("durable-call-not-single-transaction", fmt.Sprintf("%s: that call committed %d separate Badger transactions; a stop between them leaves part of the call durable",
+				where, full[plen-1].Commits), cs)
+		}
+		kind := "between-steps"
+		if rg.insideStep {
+			kind = "inside-" + spec.Steps[full[plen].Step].Kind
+		}
+		if rg.f7 {
+			kind = "inside-accept-window(F7-region)"
+		}
+		obs := ""
+		complete := true
+		if o.rec != nil {
+			for _, p := range o.rec.Problems {
+				if strings.HasPrefix(p, "tx-") {
+					complete = false
+				}
+			}
+		}
+		switch restart {
+		case "ok":
+			id, known := ids[o.rec.Marker]
+			if !known {
+				id = 999999
+			}
+			obs = vh.Ok(fmt.Sprintf("(%s, %s, %s)", vh.NU(uint64(id)), vh.NU(uint64(o.rec.Invalid)), vh.Bool(complete)))
+		case "error":
+			obs = vh.Err("(N * N * bool)")
+		default:
+			obs = vh.Pan("(N * N * bool)")
+		}
+		term := ""
+		if !masked {
+			term = vh.App("CRestart", vh.NU(uint64(spec.Nodes)), callsTerm(full), vh.Nat(plen), obs)
+		}
+		c.Case(kind, key, restart == "ok" && rg.snapCount > 0, cs, term)
+		if restart != "ok" {
+			what := where + ": the node does not restart (" + restart + ": " + detail + ")"
+			if rg.f7 {
+				h.fail(SigF7, what, cs)
+			} else {
+				h.fail("restart-failed", what, cs)
+			}
+			return
+		}
+		if o.rec.Invalid > 0 || o.rec.ValidErr != "" {
+			h.fail("validator-reports-invalid", fmt.Sprintf("%s: ValidateGraphEntries reports %d/%d invalid entries %s", where, o.rec.Invalid, o.rec.Total, o.rec.ValidErr), cs)
+		}
+		for _, p := range o.rec.Problems {
+			switch {
+			case strings.HasPrefix(p, "tx-"):
+				h.fail("finalized-transaction-incomplete", where+": "+p, cs)
+			case strings.HasPrefix(p, "topology-"):
+				h.fail("topology-position-not-unique", where+": "+p, cs)
+			default:
+				h.fail("store-scan-problem", where+": "+p, cs)
+			}
+		}
+		if o.rec.TopoCount != spec.Nodes+1+rg.snapCount {
+			h.fail("topology-position-not-unique", fmt.Sprintf("%s: %d snapshots were durably written, the topology holds %d", where, spec.Nodes+1+rg.snapCount, o.rec.TopoCount), cs)
+		}
+	}
+}
+
+func NewHarness(prop string) *Harness {
+	c := vh.Start(prop)
+	w := runtime.NumCPU() / 2
+	if w > 8 {
+		w = 8
+	}
+	if w < 2 {
+		w = 2
+	}
+	return &Harness{C: c, Prop: prop, sigCount: map[string]int{}, Workers: w}
+}
